@@ -129,7 +129,9 @@ def shapes(tier):
         add("variant_level_bare", decl, hsrc, [PT], True)
         # ---- everything else is inert
         inert = [
-            ("inert_align_width", "{:>3}", "_0"), ("inert_sign", "{:+}", "_0"), ("inert_alternate", "{:#}", "_0"),
+            ("inert_align_width", "{:>3}", "_0"), ("inert_sign", "{:+}", "_0"), ("inert_sign_minus", "{:-}", "_0"),
+            ("inert_sign_minus_typed_field", "{_1:-x}", None), ("inert_alternate", "{:#}", "_0"),
+            ("inert_trailing_space", "{} ", "_0"), ("inert_trailing_newline", "{_0}\\n", None), ("inert_trailing_tab_typed", "{_1:?}\\t", None),
             ("inert_zero_width", "{:05}", "_0"), ("inert_precision", "{:.2}", "_0"), ("inert_hex_debug", "{:x?}", "_0"),
             ("inert_center", "{:^}", "_0"), ("inert_fill", "{:*<}", "_0"), ("inert_width_arg", "{:1$}", "_0, 4"),
             ("inert_leading_text", " {}", "_0"), ("inert_trailing_escape", "{}{{", "_0"), ("inert_two_implicit", "{}{}", "_0, _1"),
@@ -138,7 +140,8 @@ def shapes(tier):
         ]
         for k, (name, lit, args) in enumerate(inert):
             body = '#[%s("%s"%s)]\n' % (attr, lit, (", " + args) if args else "") + two
-            add(name, D + body, inert_harness("flags_are_inert", trait, c2), [IN], k % 4 == 0)
+            add(name, D + body, inert_harness("flags_are_inert", trait, c2), [IN],
+                k % 4 == 0 or name in ("inert_sign_minus", "inert_trailing_newline"))
         # an inert variant next to a delegating one
         decl = D + 'pub enum S {\n    #[%s("{_0} ")]\n    V(Probe),\n    #[%s("{_0}")]\n    W(Probe),\n}' % (attr, attr)
         hsrc = """    #[kani::proof]
@@ -168,7 +171,7 @@ DESCRIPTION = {
     "grid": "9 derives x {no attribute on tuple / named / enum-variant single-field types (8 Display-likes); 10 bare-placeholder forms "
             "(implicit, index, field by position / name, alias, expression, self expression, temporary, trailing comma); each of the 8 "
             "type letters as `{:t}` with an argument and `{_0:t}` naming a field; variant-level attributes} expected to pass flags through, "
-            "and 16 literals with a modifier, text, an escape or several placeholders expected to be inert; one enum mixing both",
+            "and 21 literals with a modifier (incl. the `-` sign), leading / trailing text or whitespace, an escape or several placeholders expected to be inert; one enum mixing both",
     "symbolic": "the caller's whole FormattingOptions: fill in {' ', '*', '0', 'é'} x align(4) x sign(3) x # x 0 x width Option<u16> x "
                 "precision Option<u16> x hex-debug(3); probe ids; the variant",
     "oracle": "pass-through: exactly one formatting call on the expected argument, under the placeholder's trait, with options == the "
